@@ -255,6 +255,11 @@ func vf41Probe(x *venum.X, tr string, env *vf37Env, hist []*vf37Kind) func(run *
 			if d < 0 {
 				what = "over-release"
 			}
+			if d == 64 && u.Kind.Class == "ext-torn-garbage-tail" {
+				// one 64-byte buffer lost inside arrow-go's ipc.Reader when it recovers from a
+				// garbage message (known finding); any other amount is a different leak
+				what = "leak:exactly-one-64B-reader-buffer"
+			}
 			x.Failf("C41:"+tr+":"+u.Label()+":"+what, "history %s unit %d (%s %s): outstanding Arrow bytes %d before the call, %d after (%+d); response: %s",
 				vf37HistName(hist), u.Idx, u.Role, u.Kind.Name, u.Probe, after, d, vf37Short(u.Norm))
 		}
